@@ -3,6 +3,7 @@
 package c02
 
 import (
+	"errors"
 	"fmt"
 	"runtime"
 	"runtime/debug"
@@ -31,7 +32,14 @@ type Interp struct {
 	rules  []*flow.Rule
 	loaded bool
 	cur    *thread // the goroutine currently allowed to run (nil outside `par`)
+	inside []string // results of the requests issued by the custom generator from inside a rebuild
 }
+
+// the (strategy, behaviour) pair of the harness' own generator (must lie outside the built-in ranges)
+const (
+	customStrategy  = flow.TokenCalculateStrategy(120)
+	customBehaviour = flow.ControlBehavior(121)
+)
 
 func New() vh.Interp {
 	// one P and no GC: sync.Pool hands the pooled EntryOptions / EntryContext straight back to the next entry,
@@ -40,6 +48,12 @@ func New() vh.Interp {
 	debug.SetGCPercent(-1)
 	vh.Silence()
 	it := &Interp{clk: vh.NewClock(1_900_000_000_000)}
+	// rules with the custom pair are "built" by this generator, which never yields a controller: Rule.ID says what it
+	// does instead (fail / panic / issue a request from inside the rebuild)
+	var genType flow.TrafficControllerGenFunc
+	if err := flow.SetTrafficShapingGenerator(customStrategy, customBehaviour, adapt(genType, it.generate)); err != nil {
+		panic(err)
+	}
 	verifhook.Sched = func(point string) {
 		if point != hookPoint || it.cur == nil {
 			return
@@ -58,11 +72,51 @@ func (it *Interp) Reset() {
 	stat.ResetResourceNodeMap()
 	it.clk.Ns = 0 // `clock` only moves forward within a case
 	it.rules = nil
+	it.inside = nil
 	it.loaded = false
 	it.cur = nil
 }
 
 func resName(s string) string { return "r" + s }
+
+// adapt builds a flow.TrafficControllerGenFunc although its second parameter type is unexported: the type argument is
+// inferred from a (nil) value of the exported function type.
+func adapt[S any](_ func(*flow.Rule, S) (*flow.TrafficShapingController, error),
+	body func(*flow.Rule) (*flow.TrafficShapingController, error)) func(*flow.Rule, S) (*flow.TrafficShapingController, error) {
+	return func(r *flow.Rule, _ S) (*flow.TrafficShapingController, error) { return body(r) }
+}
+
+// generate is the harness' controller generator. Rule.ID = "fail" | "panic" | "e<res>.<batch>".
+func (it *Interp) generate(r *flow.Rule) (*flow.TrafficShapingController, error) {
+	switch {
+	case r.ID == "panic":
+		panic("custom generator panics")
+	case strings.HasPrefix(r.ID, "e"):
+		f := strings.Split(r.ID[1:], ".")
+		var opts []sentinel.EntryOption
+		if f[1] != "-" {
+			opts = append(opts, sentinel.WithBatchCount(uint32(vh.U(f[1]))))
+		}
+		t0 := it.clk.Ns
+		e, b := sentinel.Entry(resName(f[0]), opts...)
+		it.inside = append(it.inside, it.withSleep(it.decision(e, b), t0))
+	}
+	return nil, errors.New("custom rule: no controller")
+}
+
+// loadResult prints what a load left behind: ok/err, the number of controllers in force, and the results of the
+// requests the custom generator issued from inside the rebuild.
+func (it *Interp) loadResult(err error) string {
+	r := fmt.Sprintf("ok %d", len(flow.GetRules()))
+	if err != nil {
+		r = fmt.Sprintf("err %d", len(flow.GetRules()))
+	}
+	if len(it.inside) > 0 {
+		r += " [" + strings.Join(it.inside, ",") + "]"
+	}
+	it.inside = nil
+	return r
+}
 
 var resTypes = map[string]base.ResourceType{
 	"common": base.ResTypeCommon, "web": base.ResTypeWeb, "rpc": base.ResTypeRPC, "gateway": base.ResTypeAPIGateway,
@@ -94,6 +148,9 @@ func typeOpts(tok string, n int) [][]sentinel.EntryOption {
 }
 
 func parseRule(s string) *flow.Rule {
+	if s == "nil" { // a nil rule in the list
+		return nil
+	}
 	f := strings.Split(s, ",")
 	if len(f) != 4 && len(f) != 5 {
 		panic("bad rule " + s)
@@ -123,12 +180,18 @@ func parseRule(s string) *flow.Rule {
 		r.RelationStrategy = flow.AssociatedResource
 		r.RefResource = resName(f[3])
 	}
-	if len(f) == 5 { // q<MaxQueueingTimeMs>: a throttling rule
-		if !strings.HasPrefix(f[4], "q") {
+	if len(f) == 5 {
+		switch {
+		case strings.HasPrefix(f[4], "q"): // q<MaxQueueingTimeMs>: a throttling rule
+			r.ControlBehavior = flow.Throttling
+			r.MaxQueueingTimeMs = uint32(vh.U(f[4][1:]))
+		case strings.HasPrefix(f[4], "x"): // x<mode>: a rule of the harness' custom generator
+			r.TokenCalculateStrategy = customStrategy
+			r.ControlBehavior = customBehaviour
+			r.ID = f[4][1:]
+		default:
 			panic("bad rule " + s)
 		}
-		r.ControlBehavior = flow.Throttling
-		r.MaxQueueingTimeMs = uint32(vh.U(f[4][1:]))
 	}
 	return r
 }
@@ -182,10 +245,13 @@ func (it *Interp) Step(t []string, op string) string {
 		}
 		it.rules = append(it.rules, rules...)
 		it.loaded = true
-		if _, err := flow.LoadRules(rules); err != nil {
-			return "err"
+		var err error
+		if n == 0 {
+			err = flow.ClearRules()
+		} else {
+			_, err = flow.LoadRules(rules)
 		}
-		return fmt.Sprintf("ok %d", len(flow.GetRules()))
+		return it.loadResult(err)
 	case "loadres":
 		n := int(vh.U(t[2]))
 		if len(t) != 3+n {
@@ -196,10 +262,17 @@ func (it *Interp) Step(t []string, op string) string {
 			rules = append(rules, parseRule(s))
 		}
 		it.rules = append(it.rules, rules...)
-		if _, err := flow.LoadRulesOfResource(resName(t[1]), rules); err != nil {
-			return "err"
+		res := resName(t[1])
+		if t[1] == "_" { // empty resource name: an error, nothing is looked at
+			res = ""
 		}
-		return fmt.Sprintf("ok %d", len(flow.GetRules()))
+		var err error
+		if n == 0 && res != "" {
+			err = flow.ClearRulesOfResource(res)
+		} else {
+			_, err = flow.LoadRulesOfResource(res, rules)
+		}
+		return it.loadResult(err)
 	case "entry":
 		tok := ""
 		if len(t) > 3 {
@@ -223,7 +296,7 @@ func (it *Interp) Step(t []string, op string) string {
 	case "sum":
 		n := stat.GetResourceNode(resName(t[1]))
 		if n == nil {
-			return "-"
+			return "0" // no node yet: nothing admitted (canonical form)
 		}
 		return fmt.Sprint(n.GetSum(base.MetricEventPass))
 	}
